@@ -82,8 +82,6 @@ def run(ck, F):
                       'entity as its owner (every implementation class of the interface -- sibling rule)', floor=10)
     R_handler = ck.rule('C12.handler', 'a handler\'s body is enclosed by a singleton region binding its exception parameter, itself '
                         'enclosed by the region that encloses the guarded block', floor=3)
-    R_pos = ck.rule('C12.positions', 'parameters, enumerators and bases report the size of their own sequence before they were '
-                    'appended (zero based), their list\'s region as home, and the list\'s nesting level', floor=6)
     R_unit = ck.rule('C12.units', 'every unit owns a global namespace named by the empty identifier whose region is the parentless '
                      'root; module units store the module that made them', floor=3)
 
@@ -223,6 +221,43 @@ def run(ck, F):
         ck.check(R_handler, 'singleton' + tag, single, 'the exception-parameter region is not a singleton region', loc=nh['loc'], fn=nh['id'])
 
     # ---------------------------------------------------------------- positions / home / level
+    positions_rule(ck, F, S)
+
+    # ---------------------------------------------------------------- units
+    mk = F.need_fn('ipr::impl::Module::make_unit()')
+    outs = [o for o in S.run(mk['id']) if o[1] == 'return']
+    for i, (st, _k, v) in enumerate(outs):
+        root = v[1]
+        names = {root[1]: 'R'}
+        acc = contracts.observe(S, F, st, root, names, accessor_filter=lambda n: n in ('parent_module', 'global_namespace'))
+        ck.check(R_unit, f'Module::make_unit#{i}/parent', acc.get('parent_module') == '$this',
+                 f'a module unit reports parent module `{acc.get("parent_module")}`', loc=mk['loc'], fn=mk['id'])
+        gns = st.heap[root[1]].fields.get(F.role_field(st.heap[root[1]].cls, lambda fl: fl['t'] == 'ipr::impl::Namespace', 'global namespace of the unit', inherited=True))
+        good = False
+        what = 'no global namespace member'
+        if gns and gns[0] == 'obj':
+            go = st.heap[gns[1]]
+            idv = opt_target(st, go.fields.get('id'))
+            body = go.fields.get('body')
+            bpar = opt_target(st, st.heap[body[1]].fields.get('parent')) if body and body[0] == 'obj' else None
+            own = opt_target(st, st.heap[body[1]].fields.get('owned_by')) if body and body[0] == 'obj' else None
+            idtxt = contracts.render(idv, st, {})
+            named_empty = 'get_identifier' in idtxt and '""' in idtxt or 'intern' in idtxt and '""' in idtxt
+            if not named_empty and isinstance(idv, tuple) and idv[0] == 'obj':
+                # identifier object built from the empty word
+                named_empty = '""' in contracts.render(idv, st, {})
+            good = named_empty and bpar == ('absent',) and own == gns
+            what = f'name={idtxt[:80]}, region parent={contracts.render(bpar, st, {}) if bpar else None}, owner is the namespace={own == gns}'
+        ck.check(R_unit, f'Module::make_unit#{i}/global namespace', good, 'global namespace of a unit: ' + what, loc=mk['loc'], fn=mk['id'])
+    ub = [f for f in F.fn.values() if f.get('ctor') and (f.get('parent') or '').startswith('ipr::impl::unit_base<') and not f.get('copy')]
+    ck.check(R_unit, 'unit_base constructors', len(ub) >= 1, 'no unit_base constructor instantiated', loc=mk['loc'])
+
+
+def positions_rule(ck, F, S, prefix='C12'):
+    """Parameters, enumerators and bases report their index; borrowed by C07 under its own prefix."""
+    R_pos = ck.rule(f'{prefix}.positions', 'parameters, enumerators and bases report the size of their own sequence before they were '
+                    'appended (zero based, converted to the position type without losing bits), their list\'s region as home, and the '
+                    'list\'s nesting level', floor=6)
     cases = [
         ('Parameter_list::add_member', 'ipr::impl::Parameter_list::add_member(const ipr::Name &, const ipr::Type &)',
          {'home_region': '$this.region()', 'level': '$this.level()'}),
@@ -258,35 +293,6 @@ def run(ck, F):
                      loc=f['loc'], fn=fid)
             for k2, w in want.items():
                 ck.check(R_pos, pname + '/' + k2, acc.get(k2) == w, f'{fid}: {k2}() is `{acc.get(k2)}`, expected `{w}`', loc=f['loc'], fn=fid)
-
-    # ---------------------------------------------------------------- units
-    mk = F.need_fn('ipr::impl::Module::make_unit()')
-    outs = [o for o in S.run(mk['id']) if o[1] == 'return']
-    for i, (st, _k, v) in enumerate(outs):
-        root = v[1]
-        names = {root[1]: 'R'}
-        acc = contracts.observe(S, F, st, root, names, accessor_filter=lambda n: n in ('parent_module', 'global_namespace'))
-        ck.check(R_unit, f'Module::make_unit#{i}/parent', acc.get('parent_module') == '$this',
-                 f'a module unit reports parent module `{acc.get("parent_module")}`', loc=mk['loc'], fn=mk['id'])
-        gns = st.heap[root[1]].fields.get(F.role_field(st.heap[root[1]].cls, lambda fl: fl['t'] == 'ipr::impl::Namespace', 'global namespace of the unit', inherited=True))
-        good = False
-        what = 'no global namespace member'
-        if gns and gns[0] == 'obj':
-            go = st.heap[gns[1]]
-            idv = opt_target(st, go.fields.get('id'))
-            body = go.fields.get('body')
-            bpar = opt_target(st, st.heap[body[1]].fields.get('parent')) if body and body[0] == 'obj' else None
-            own = opt_target(st, st.heap[body[1]].fields.get('owned_by')) if body and body[0] == 'obj' else None
-            idtxt = contracts.render(idv, st, {})
-            named_empty = 'get_identifier' in idtxt and '""' in idtxt or 'intern' in idtxt and '""' in idtxt
-            if not named_empty and isinstance(idv, tuple) and idv[0] == 'obj':
-                # identifier object built from the empty word
-                named_empty = '""' in contracts.render(idv, st, {})
-            good = named_empty and bpar == ('absent',) and own == gns
-            what = f'name={idtxt[:80]}, region parent={contracts.render(bpar, st, {}) if bpar else None}, owner is the namespace={own == gns}'
-        ck.check(R_unit, f'Module::make_unit#{i}/global namespace', good, 'global namespace of a unit: ' + what, loc=mk['loc'], fn=mk['id'])
-    ub = [f for f in F.fn.values() if f.get('ctor') and (f.get('parent') or '').startswith('ipr::impl::unit_base<') and not f.get('copy')]
-    ck.check(R_unit, 'unit_base constructors', len(ub) >= 1, 'no unit_base constructor instantiated', loc=mk['loc'])
 
 
 def check_owner(ck, F, S, R_owner, st, root, cls, ifc, f):
